@@ -46,7 +46,7 @@ def sha_tree():
     return h.hexdigest()[:24]
 
 
-def run_verus(path, extra=None, timeout=int(os.environ.get("VERIF_VERUS_CAP_S", "1200"))):
+def run_verus(path, extra=None, timeout=int(os.environ.get("VERIF_VERUS_CAP_S", "900"))):
     flags = list(VERUS_FLAGS)
     extra = list(extra or [])
     if "--rlimit" in extra:     # an explicit limit replaces the default one (verus rejects a repeated option)
@@ -603,6 +603,9 @@ def main():
                         "smt_ms": st.get("ms"), "rlimit": st.get("rlimit"), "verified": st.get("success"),
                         "rules_applied": sorted(set(x["rule"] for x in frec[p]["rules_applied"]))})
     tool_errors = list(r["tool_errors"])
+    if r.get("stopped_early"):
+        # obligations not refuted by then were not necessarily examined: without a violation of its own this property is undecided
+        tool_errors.append(r["stopped_early"])
     if r["lemma_failures"]:
         tool_errors.append("spec lemma failed: " + "; ".join(r["lemma_failures"])[:300])
     has_table = any(kani_harness_of(o["id"]) for o in mine)
